@@ -23,7 +23,9 @@ RULE = (
     "<=2 inversions) replayed on a fresh real Scenario over the fake-ray seam; canonical driver state compared after "
     "that join and after every step; bookkeeping invariants evaluated after every step of every run. non-trivial = a "
     "replayed order that differs from the default in a batch whose merges touch shared engine/agent state (n>=2); "
-    "distinct by (config, batch index, Lehmer code)."
+    "distinct by (config, batch index, Lehmer code). Deviation bound 2 (pairs/*): for a subset of the configurations "
+    "every pair of batches is reordered together (all orders for batches of <=3 jobs quick / <=4 thorough, adjacent "
+    "transpositions beyond), so the induction step of the single-batch argument is explored rather than assumed."
 )
 ASSUMPTIONS = [
     "Ray semantics as modelled by verif/fakeray.py: arguments/results pickled, wait() returns one finished job, the set "
@@ -367,6 +369,10 @@ def items(tier, seed):
     # worker-side purity under reordering: no memo, one forked process per schedule
     for name in NOMEMO_CONFIGS:
         out.append((name, tier, None, "nomemo"))
+    # deviation bound 2: two batches of one run reordered together (the induction step explored, not assumed)
+    for name in PAIR_CONFIGS[tier]:
+        for shard in range(PAIR_SHARDS):
+            out.append((name, tier, None, "pairs", None, shard))
     return out
 
 
@@ -383,6 +389,96 @@ def _codes_for(n, tier):
     if n <= limit:
         return list(sched.lehmer_codes(n)), None
     return list(sched.lehmer_codes(n, max_sum=2)), f"batch of {n} jobs: orders with <=2 inversions only"
+
+
+PAIR_CONFIGS = {
+    "quick": ["munkres_2x2", "greedy_same_target_mixed", "two_engines_greedy_allvisible", "munkres_2x2_sensor_set_changes"],
+    "thorough": ["munkres_2x2", "greedy_same_target_mixed", "two_engines_greedy_allvisible", "munkres_2x2_sensor_set_changes",
+                 "munkres_2x3", "greedy_mixed_3x2", "random_2x2", "munkres_2x2_output120", "munkres_1x2_target_set_changes",
+                 "greedy_2x2_cost", "two_engines_munkres"],
+}
+
+
+PAIR_SHARDS = 6  # work items per configuration (the combinations are dealt round-robin)
+
+
+def _pair_codes(n, tier):
+    """Non-identity orders of one batch used in a two-batch deviation: all of them up to 3 jobs (quick) / 4 (thorough),
+    otherwise the orders one adjacent transposition away from the default (reported as the bound)."""
+    full = 3 if tier == "quick" else 4
+    codes = sched.lehmer_codes(n) if n <= full else sched.lehmer_codes(n, max_sum=1)
+    return [c for c in codes if any(c)]
+
+
+def _run_pairs(res, name, tier, item):
+    """Two-batch deviations: for every pair of batches (i < j) of the default run, every combination of a non-default
+    order in batch i with a non-default order in batch j is replayed on a fresh scenario; the canonical state after
+    every step must equal the default run's and the bookkeeping invariants must hold.  The single-batch search
+    concludes by induction that combinations reach the same states; this family explores the first level of that
+    induction directly, so an order dependence that needs two reordered batches to show (state carried from one
+    batch's merge order into the next batch) is reached."""
+    only = item[4] if len(item) > 4 else None  # replay: [bi, code_i, bj, code_j]
+    shard = item[5] if len(item) > 5 else None
+    ordinal = -1
+    cfg, n_steps = _configs(tier)[name]
+    fakeray.MEMO_ENABLED = True
+    build = _build_fn(cfg)
+    base = sched.run(build, n_steps, (), per_step=_per_step)
+    res.traces += 1
+    if base.error:
+        res.violate("run/error", {"config": name, "schedule": "default"}, signature="C08/run_error/default",
+                    observed=base.error, item=item)
+        return
+    seen = {canon.state_hash(s) for s in base.step_states}
+    multi_b = [(bi, b) for bi, b in enumerate(base.batches) if b["n"] >= 2]
+    capped = sorted({b["n"] for _, b in multi_b if b["n"] > (3 if tier == "quick" else 4)})
+    if capped:
+        res.cap(f"pairs {name}: batches of {capped} jobs contribute adjacent transpositions only to two-batch deviations")
+    for x, (bi, b1) in enumerate(multi_b):
+        for bj, b2 in multi_b[x + 1:]:
+            for c1 in _pair_codes(b1["n"], tier):
+                for c2 in _pair_codes(b2["n"], tier):
+                    if only is not None and [bi, list(c1), bj, list(c2)] != [only[0], list(only[1]), only[2], list(only[3])]:
+                        continue
+                    ordinal += 1
+                    if only is None and shard is not None and ordinal % PAIR_SHARDS != shard:
+                        continue
+                    choices = [0] * b1["start"] + list(c1) + [0] * (b2["start"] - b1["start"] - len(c1)) + list(c2)
+                    rec = sched.run(build, n_steps, choices, per_step=_per_step)
+                    res.traces += 1
+                    res.transitions += b1["n"] + b2["n"]
+                    label = f"pair:{bi}:{''.join(map(str, c1))}+{bj}:{''.join(map(str, c2))}"
+                    stepk = b2.get("step", 0)
+                    multi = any(len(v) > 1 for k in {b1.get("step", 0), stepk} if k < len(base.step_info)
+                                for v in base.step_info[k]["reported"].values())
+                    case = {"config": name, "batches": [bi, bj], "kinds": [b1["kind"], b2["kind"]], "codes": [list(c1), list(c2)],
+                            "decision": cfg["engines"][0]["decision"]["name"], "sensor_in_multiple_jobs_of_step": bool(multi)}
+                    ritem = (name, tier, None, "pairs", [bi, list(c1), bj, list(c2)])
+                    if rec.error:
+                        res.violate("pairs/run_error", case, signature=f"C08/order_dependence/pairs/{b1['kind']}+{b2['kind']}/run_error",
+                                    observed=rec.error, item=ritem, nontrivial=True, key=label + name)
+                        continue
+                    _check_invariants(res, name, label, rec, ritem)
+                    same_struct = [(q["kind"], q["n"]) for q in rec.batches] == [(q["kind"], q["n"]) for q in base.batches]
+                    diffs, where = [], ""
+                    if same_struct:
+                        for k, (sa, sb) in enumerate(zip(base.step_states, rec.step_states)):
+                            d = canon.diff(sa, sb, exact=sched.default_exact)
+                            seen.add(canon.state_hash(sb))
+                            if d:
+                                diffs, where = d, f"after_step{k}"
+                                break
+                    ok = same_struct and not diffs and len(rec.step_states) == len(base.step_states)
+                    pclass = sched.path_class(diffs[0][0]) if diffs else ("batch_structure" if not same_struct else "")
+                    res.case(
+                        "pairs/one_successor", case, ok, nontrivial=True, key=f"pairs|{name}|{label}",
+                        signature=f"C08/order_dependence/{b2['kind']}/{pclass}",
+                        observed={"where": where, "diffs": [(p, str(u)[:80], str(v)[:80]) for p, u, v in diffs[:5]]},
+                        expected="same canonical driver state as the default completion order",
+                        outcome="same" if ok else f"differs:{pclass}", item=ritem,
+                    )
+                    res.observe(ok, pclass)
+    res.states += len(seen)
 
 
 def _run_nomemo(res, name, tier, item):
@@ -444,6 +540,10 @@ def run_item(item):
     if len(item) > 3 and item[3] == "nomemo":
         res = fw.Result()
         _run_nomemo(res, name, tier, item)
+        return res
+    if len(item) > 3 and item[3] == "pairs":
+        res = fw.Result()
+        _run_pairs(res, name, tier, item)
         return res
     only = item[2] if len(item) > 2 else None  # replay: [batch index, code]
     cfg, n_steps = _configs(tier)[name]
